@@ -39,13 +39,20 @@ int main(int argc, char** argv) {
         int it = 2 + (int)(c % 3);
         bool sinus = (c / 3) % 3 == 2;
         uint32_t steps = (uint32_t)std::round(r.logu(20, M.thorough() ? 2000 : 600));
+        // one case in sixteen: very many steps per period on a small mesh (per-step displacements of 1e-4 cell and less near the zero bins)
+        bool longrun = (c % 16 == 7);
+        if (longrun) { n = (uint32_t)r.range(32, 40); steps = (uint32_t)std::round(r.logu(1e5, 3e5)); it = 3 + (int)(c / 16 % 2); M.ev("cases_with_1e5_steps_per_period"); }
         double a = PI2 / steps;
         double shiftx = r.chance(0.6) ? r.uni(-3, 3) : 0, shifty = r.chance(0.6) ? r.uni(-3, 3) : 0;
         const double pq = 12, d = pq / (n - 1);
         double qc = -shiftx * d, pc = -shifty * d;
         double qscale = r.logu(1e-3, 3e-3), pscale = r.logu(2e5, 2e6), fRF = r.logu(1e8, 5e8), V = r.logu(2e5, 4e6);   // k_RF*sigma <= 0.03: 'small amplitudes'
         // a quarter of the cases are trains of 2-3 bunches, each with its own start: "any distribution" includes every bunch of a train
-        uint32_t nb = (c % 4 == 3) ? (uint32_t)r.range(2, 3) : 1;
+        uint32_t nb = (c % 4 == 3 && !longrun) ? (uint32_t)r.range(2, 3) : 1;
+        // one case in ten asks for clamped interpolation (a no-op in the CPU kick maps of this tree; a limiter, where implemented, does not
+        // transport first moments exactly): judged by the statement's rotation bound only, with a third of a cell of allowance
+        bool clamp = (c % 10 == 9);
+        if (clamp) M.ev("cases_with_clamped_interpolation");
         std::ostringstream ds; ds << (sinus ? "sinus" : "linear") << " n=" << n << " nb=" << nb << " it=" << it << " steps=" << steps << " shift=(" << shiftx << "," << shifty << ")";
         M.begin_case(c, ds.str());
         vh::set_grid(n, nb);
@@ -59,26 +66,27 @@ int main(int argc, char** argv) {
             float* da = A->getData() + (size_t)bn * n * n;
             for (int b = 0; b < nblob; b++) {
                 double rad = r.uni(0.2, it == 2 ? 1.0 : 2.0), ph = r.uni(0, PI2), sg = r.uni(0.4, 0.6), amp = r.uni(0.3, 1);
+                if (longrun) { rad = r.uni(0.3, 1.0); sg = r.uni(0.8, 1.0); }     // (well resolved on the small mesh: 1e5 interpolations must not wear the blob down)
                 double mq = rad * std::cos(ph), mp = rad * std::sin(ph);
                 for (uint32_t x = 0; x < n; x++) for (uint32_t y = 0; y < n; y++) {
                     double q = A->q(x), p = A->p(y);
                     double v = amp * std::exp(-0.5 * ((q - mq) * (q - mq) + (p - mp) * (p - mp)) / (sg * sg));
-                    if ((q - mq) * (q - mq) + (p - mp) * (p - mp) < 16 * sg * sg) da[(size_t)x * n + y] += (float)v;   // compact support: stays inside while rotating
+                    if ((q - mq) * (q - mq) + (p - mp) * (p - mp) < (longrun ? 12.25 : 16) * sg * sg) da[(size_t)x * n + y] += (float)v;   // compact support: stays inside while rotating
                 }
             }
         }
         std::unique_ptr<RFKickMap> rf;
         double t_eff, nonlin = 0;     // nonlin: relative curvature of the sine over the region the charge occupies
-        if (!sinus) { rf.reset(new RFKickMap(A, B, (meshaxis_t)a, (frequency_t)fRF, (SourceMap::InterpolationType)it, false, nullptr)); t_eff = std::tan((double)(float)a); }
+        if (!sinus) { rf.reset(new RFKickMap(A, B, (meshaxis_t)a, (frequency_t)fRF, (SourceMap::InterpolationType)it, clamp, nullptr)); t_eff = std::tan((double)(float)a); }
         else {
             double bl2phase = qscale / physcons::c * fRF * PI2;
             nonlin = std::pow(bl2phase * (2.0 + 2.5), 2) / 6.0;     // centroid radius <= 2 sigma, blobs reach 2.4 sigma further
             double revpart = a * pscale / (V * bl2phase);     // so that the small-amplitude kick is a*q
-            rf.reset(new RFKickMap(A, B, (timeaxis_t)revpart, (meshaxis_t)V, (frequency_t)fRF, (meshaxis_t)0, (SourceMap::InterpolationType)it, false, nullptr));
+            rf.reset(new RFKickMap(A, B, (timeaxis_t)revpart, (meshaxis_t)V, (frequency_t)fRF, (meshaxis_t)0, (SourceMap::InterpolationType)it, clamp, nullptr));
             t_eff = (double)(float)revpart * (double)(float)V * bl2phase / pscale;
         }
         std::vector<meshaxis_t> slip{(meshaxis_t)a};
-        DriftMap drift(B, A, slip, (meshaxis_t)1.3e9, (SourceMap::InterpolationType)it, false, nullptr);
+        DriftMap drift(B, A, slip, (meshaxis_t)1.3e9, (SourceMap::InterpolationType)it, clamp, nullptr);
         std::vector<Cen> c0v(nb); std::vector<double> mqv(nb), mpv(nb); std::vector<char> insidev(nb, 1), stopv(nb, 0);
         for (uint32_t bn = 0; bn < nb; bn++) { c0v[bn] = centroid(*A, n, bn); mqv[bn] = c0v[bn].q; mpv[bn] = c0v[bn].p; }
         Cen c0 = c0v[0];
@@ -105,13 +113,19 @@ int main(int argc, char** argv) {
                 if (nb > 1) M.ev("train_bunch_steps_observed");
                 double sin_allow = sinus ? std::max(2e-3, nonlin) * rb * (1 + k * a) : 0;
                 double tol1 = sin_allow + 2e-5 * (1 + rb) * (1 + 0.02 * k);
-                double tol2 = 2.0 * a * rb + 2e-4 + sin_allow;
+                double tol2 = 2.0 * a * rb + 2e-4 + sin_allow + (clamp ? 0.35 * d : 0.0);
+                if (longrun) {
+                    // 1e5 interpolations diffuse a little charge to the border whatever the scheme: such a case is judged over the whole period,
+                    // by a bound far above that effect and far below what a centroid that does not follow the rotation produces
+                    insidev[bn] = 1; tol2 = 0.25 * rb + 0.05;
+                    if (std::fabs(ck.w / cb.w - 1) > 0.05) { M.ev("charge_left_grid"); stopv[bn] = 1; continue; }
+                }
                 if (!insidev[bn] && std::fabs(ck.w / cb.w - 1) > 1e-3) { M.ev("charge_left_grid"); stopv[bn] = 1; continue; }   // diffused over the border: not judged
-                if (border_fraction(*A, n, bn) > 1e-7) insidev[bn] = 0;    // once charge has reached the border region the case is no longer "inside the grid"
+                if (!longrun && border_fraction(*A, n, bn) > 1e-7) insidev[bn] = 0;   // (long runs are judged by the rotation bound, far coarser than 2e-5 of the charge times the grid size)    // once charge has reached the border region the case is no longer "inside the grid"
                 bool lossless = insidev[bn];
                 if (!lossless) M.ev("steps_with_charge_loss_not_judged");
                 std::string bk = (bn > 0) ? ":bunch>0" : "";
-                if (lossless && !M.within(std::string("centroid_vs_matrix_product_over_tol.") + (sinus ? "sinus" : "linear"), e1 / tol1, 1.0)) {
+                if (lossless && !clamp && !longrun && !M.within(std::string("centroid_vs_matrix_product_over_tol.") + (sinus ? "sinus" : "linear"), e1 / tol1, 1.0)) {
                     vh::J dj; dj.s("case", ds.str()).i("step", k).i("bunch", bn).n("q", ck.q).n("p", ck.p).n("want_q", mq).n("want_p", mp).n("c0_q", cb.q).n("c0_p", cb.p);
                     M.violation(std::string("C03:track:") + (sinus ? "sinus" : "linear") + bk, "centre of charge leaves the exact kick-drift orbit", dj.str());
                     stopv[bn] = 1;
@@ -122,6 +136,7 @@ int main(int argc, char** argv) {
                 }
                 if (!stopv[bn]) all_stopped = false;
                 if (k == steps && !stopv[bn]) M.ev(bn == 0 ? "periods_closed" : "periods_closed_bunch>0");
+                if (k == steps && !stopv[bn] && longrun && lossless) M.ev("periods_of_1e5_steps_closed");
             }
             if (all_stopped) stop = true;
         }
